@@ -175,7 +175,9 @@ def run(ctx):
     from vlib import lib
     lib.load("nojit")
     ns = list(range(1, 151))
-    chunks = [ns[i::16] for i in range(16)]
+    chunks = [ns[i::16] for i in range(14)] + [ns[14::16][::-1], ns[15::16][::-1]]
+    # sizes in descending and interleaved order inside one process (helpers may not remember earlier sizes)
+    chunks += [list(range(150, 0, -7)), [150, 3, 149, 2, 107, 1, 64, 5, 128, 129, 12, 255 % 151, 40]]
     for r in ctx.pmap(work_compress, chunks):
         ctx.take(r)
     pairs = [(N, W) for N in range(1, 11) for W in range(1, 15)]
